@@ -307,7 +307,7 @@ func init() {
 			"external-callee effect table in effects.go (math/bits, strings, bytes.Compare, fmt.Sprintf, reflect read accessors, sort.* writes arg 0, ...)",
 			"github.com/openacid/must: Be.* either panics or returns and touches only its own state"},
 		Assume:   []string{"clients do not write the exported tables (Mask, Bit, BitWord, ...) themselves: the property constrains the library's own functions", "fmt.Sprintf does not mutate its operands (no String methods with side effects in scope)"},
-		Quick:    []Config{cfgDefault},
+		Quick:    []Config{cfgDefault, cfg386},
 		Thorough: allThorough,
 		Run:      runC19,
 	})
